@@ -7,6 +7,23 @@ from .vals import IntS, BoolS, StrS, PyVal, kind_sort, from_sort, elem_heapkey
 _counter = [0]
 
 
+def guarded_check(solver, limit_ms):
+    """solver.check() with a hard wall-clock guard: z3's own `timeout` is not honoured by every theory (the sequence
+    solver in particular), so a watchdog interrupts the context when the limit is exceeded by half.  An interrupted check
+    answers `unknown`, which every caller treats conservatively."""
+    import threading
+    solver.set("timeout", int(limit_ms))
+    t = threading.Timer(limit_ms * 1.5 / 1000.0 + 0.2, solver.ctx.interrupt)
+    t.daemon = True
+    t.start()
+    try:
+        return solver.check()
+    except z3.Z3Exception:
+        return z3.unknown
+    finally:
+        t.cancel()
+
+
 def fresh(name, sort):
     _counter[0] += 1
     return z3.Const(f"{name}!{_counter[0]}", sort)
